@@ -1,8 +1,8 @@
 /-
 Driver of the C04 section of the oracle.
 
-  @ C04 slice <cmp> v…       Slice[int] from FromSlice(v…)      ops: push pop peek len rm fix set popall
-  @ C04 heap <cmp>           two Heap[int] (A, B) from New(0,·) ops: init push pop peek len rm fix setv popall
+  @ C04 slice <cmp> v…       Slice[int] from FromSlice(v…)      ops: push pop peek len rm fix set setfix popall
+  @ C04 heap <cmp>           two Heap[int] (A, B) from New(0,·) ops: init push pushe pop peek len rm fix setv setfix popall
   @ C04 generic <cmp> v…     recording container holding v…     ops: init push pop rm fix set
 
 After every operation the whole observable state is printed: `Slice.Values` / `Len()` of both
@@ -30,27 +30,35 @@ def runOps {σ : Type} (step : σ → List String → Option (Option (σ × Stri
 
 /-! ### slice -/
 
+def showSRet : SRet → String
+  | .unit => "ok"
+  | .val x ok => s!"{x} {showBool ok}"
+  | .len n => toString n
+  | .vals xs => showInts xs
+
+/-- One line → one client call (`SOp`), or the bare write `set i v` (`s.Values[i] = v` without a
+`Fix`; the generator follows it by `fix`). -/
+def parseSOp (ts : List String) : Option SOp :=
+  match ts with
+  | ["push", x] => do pure (.push (← x.toInt?))
+  | ["pop"] => pure .pop
+  | ["peek"] => pure .peek
+  | ["len"] => pure .len
+  | ["rm", i] => do pure (.remove (← i.toInt?))
+  | ["fix", i] => do pure (.fix (← i.toInt?))
+  | ["setfix", i, v] => do pure (.setFix (← i.toNat?) (← v.toInt?))
+  | ["popall"] => pure .popAll
+  | _ => none
+
 def sliceStep (cmp : Int → Int → Bool) (s : List Int) (ts : List String) :
     Option (Option (List Int × String)) :=
   match ts with
-  | ["push", x] => do
-    let x ← x.toInt?
-    pure ((Slice.push cmp s x).map fun s1 => (s1, s!"ok {showInts s1}"))
-  | ["pop"] => pure ((Slice.pop cmp s).map fun (s1, x, ok) => (s1, s!"{x} {showBool ok} {showInts s1}"))
-  | ["peek"] => pure ((Slice.peek s).map fun (x, ok) => (s, s!"{x} {showBool ok} {showInts s}"))
-  | ["len"] => pure (some (s, s!"{s.length} {showInts s}"))
-  | ["rm", i] => do
-    let i ← i.toInt?
-    pure ((Slice.remove cmp s i).map fun (s1, x, ok) => (s1, s!"{x} {showBool ok} {showInts s1}"))
-  | ["fix", i] => do
-    let i ← i.toInt?
-    pure ((Slice.fix cmp s i).map fun s1 => (s1, s!"ok {showInts s1}"))
   | ["set", i, v] => do
     let i ← i.toNat?; let v ← v.toInt?
     if i < s.length then pure (some (s.set i v, s!"ok {showInts (s.set i v)}")) else none
-  | ["popall"] =>
-    pure ((Slice.popAll cmp (s.length + 1) s).map fun (s1, xs) => (s1, s!"{showInts xs} {showInts s1}"))
-  | _ => none
+  | _ => do
+    let op ← parseSOp ts
+    pure ((stepS cmp s op).map fun (s1, r) => (s1, s!"{showSRet r} {showInts s1}"))
 
 def runSlice (hdr ops : List String) : List String :=
   match hdr with
@@ -69,7 +77,7 @@ def HMem.dump (m : HMem) : String :=
   let cells := (List.range m.fresh).map fun e => s!"{e}:{m.idx.get e}:{m.val.get e}"
   s!"A={m.a0.length} B={m.a1.length} | " ++ " ".intercalate cells
 
-def parseHeap (t : String) : Option Nat :=
+def parseHeap (t : String) : Option (Fin 2) :=
   if t = "A" then some 0 else if t = "B" then some 1 else none
 
 def parseElem (m : HMem) (t : String) : Option Nat :=
@@ -81,38 +89,50 @@ def showElem : Option Nat → String
   | none => "nil"
   | some e => toString e
 
-def heapStep (cmp : Int → Int → Bool) (m : HMem) (ts : List String) :
-    Option (Option (HMem × String)) :=
+def showRet : HRet → String
+  | .unit => "ok"
+  | .handle e => showElem e
+  | .len n => toString n
+  | .vals xs => showInts xs
+
+/-- One line → one client call (`HOp`), or the bare field write `setv e v` (`e.Value = v`
+without a `Fix`; the generator follows it by `fix` on the owner). -/
+def parseHOp (m : HMem) (ts : List String) : Option HOp :=
   match ts with
   | "init" :: h :: vs => do
     let h ← parseHeap h; let vs ← ints? vs
-    pure ((m.init cmp h vs).map fun m1 => (m1, s!"ok | {m1.dump}"))
+    pure (.init h vs)
   | ["push", h, x] => do
     let h ← parseHeap h; let x ← x.toInt?
-    pure ((m.push cmp h x).map fun (m1, e) => (m1, s!"{e} | {m1.dump}"))
-  | ["pop", h] => do
-    let h ← parseHeap h
-    pure ((m.pop cmp h).map fun (m1, e) => (m1, s!"{showElem e} | {m1.dump}"))
-  | ["peek", h] => do
-    let h ← parseHeap h
-    pure ((m.peek h).map fun e => (m, s!"{showElem e} | {m.dump}"))
-  | ["len", h] => do
-    let h ← parseHeap h
-    pure (some (m, s!"{(m.arr h).length} | {m.dump}"))
+    pure (.push h x)
+  | ["pushe", h, e] => do
+    let h ← parseHeap h; let e ← parseElem m e
+    pure (.pushElem h e)
+  | ["pop", h] => do pure (.pop (← parseHeap h))
+  | ["peek", h] => do pure (.peek (← parseHeap h))
+  | ["len", h] => do pure (.len (← parseHeap h))
   | ["rm", h, e] => do
     let h ← parseHeap h; let e ← parseElem m e
-    pure ((m.remove cmp h e).map fun m1 => (m1, s!"ok | {m1.dump}"))
+    pure (.remove h e)
   | ["fix", h, e] => do
     let h ← parseHeap h; let e ← parseElem m e
-    pure ((m.fixElem cmp h e).map fun m1 => (m1, s!"ok | {m1.dump}"))
+    pure (.fix h e)
+  | ["setfix", h, e, v] => do
+    let h ← parseHeap h; let e ← parseElem m e; let v ← v.toInt?
+    pure (.setFix h e v)
+  | ["popall", h] => do pure (.popAll (← parseHeap h))
+  | _ => none
+
+def heapStep (cmp : Int → Int → Bool) (m : HMem) (ts : List String) :
+    Option (Option (HMem × String)) :=
+  match ts with
   | ["setv", e, v] => do
     let e ← parseElem m e; let v ← v.toInt?
     let m1 := { m with val := m.val.set e v }
     pure (some (m1, s!"ok | {m1.dump}"))
-  | ["popall", h] => do
-    let h ← parseHeap h
-    pure ((HMem.popAll cmp h ((m.arr h).length + 1) m).map fun (m1, xs) => (m1, s!"{showInts xs} | {m1.dump}"))
-  | _ => none
+  | _ => do
+    let op ← parseHOp m ts
+    pure ((stepH cmp m op).map fun (m1, r) => (m1, s!"{showRet r} | {m1.dump}"))
 
 def runHeap (hdr ops : List String) : List String :=
   match hdr with
